@@ -1086,12 +1086,17 @@ class Machine:
             direction = "".join("xyz"[c] for c in sel)
             if op.get("dirsel", 0) % 3 == 2:
                 direction = list(sel)  # documented alternative: list of indices
-            out = side.srf.mesh(mesh, points=op["points"], direction=direction,
-                                name="f_" + side.tag, **kw)
+            # which positions the field object holds afterwards (also when the call dies in
+            # the post-processing: the positions are set before)
             if op["points"] == "centroids":
                 cents = np.vstack([np.mean(pts3[c.data], axis=1) for c in mesh.cells])
                 ptsx = cents.T[sel]
                 self.last_mesh = ("x", ptsx.tolist())
+            else:
+                self.last_mesh = ("u", list(what))
+            out = side.srf.mesh(mesh, points=op["points"], direction=direction,
+                                name="f_" + side.tag, **kw)
+            if op["points"] == "centroids":
                 # the mesh must carry what was returned
                 stored = np.concatenate(
                     [np.asarray(a) for a in mesh.cell_data["f_" + side.tag]], axis=0)
@@ -1100,7 +1105,6 @@ class Machine:
                 if not close(stored, out):
                     raise Violation("C11.mesh_data_mismatch", points="centroids")
                 return out, ptsx
-            self.last_mesh = ("u", list(what))
             stored = np.asarray(mesh.point_data["f_" + side.tag])
             if self.vector:
                 stored = stored.T
